@@ -24,6 +24,7 @@ let rec stmt_of (x : Sx.t) : stmt =
   | "group", [p; hs; body] -> SGroup (str p, hs_of hs, List.map stmt_of (Sx.args body))
   | "combo", p :: hs :: uses -> SCombo (str p, hs_of hs, List.map (fun u -> match Sx.tag u, Sx.args u with "use", [m; h] -> CUse (atom_str m, hs_of h) | "autohead", [b] -> CAuto (bool_of b) | _ -> failwith "use") uses)
   | "autohead", [b] -> SAutoHead (bool_of b)
+  | "wrapper", [b] -> SWrapper (bool_of b)
   | _ -> failwith ("stmt: " ^ Sx.show x)
 
 (* the restricted route syntax of C11 programs: "/" separated, a segment is "{name}" or a literal *)
@@ -45,7 +46,7 @@ let methods_idx (m : coq_N list) : Datatypes.nat list =
 let gate_name = List.map (fun c -> n_of_int (Char.code c)) (List.init 6 (String.get "X-Gate"))
 let gate_val = List.map (fun c -> n_of_int (Char.code c)) (List.init 2 (String.get "on"))
 
-let predict (wrap : bool) (regs : freg list option) (probes : Sx.t list) : Sx.t list =
+let predict (regs : freg list option) (probes : Sx.t list) : Sx.t list =
   match checked regs with
   | None -> [Sx.L [Sx.A "regs"; Sx.L [Sx.A "panic"]]]
   | Some regs ->
@@ -70,7 +71,7 @@ let predict (wrap : bool) (regs : freg list option) (probes : Sx.t list) : Sx.t 
                | Found (rid, ps) ->
                    let r = List.nth regs (int_of_nat rid) in
                    let ps = (G_router.s_route, render_route (route_of_path r.fr_path)) :: ps in
-                   Sx.L [Sx.A "r"; Sx.L (Sx.A "hs" :: List.map (fun h -> sx_int (int_of_nat h)) (run_trace wrap r));
+                   Sx.L [Sx.A "r"; Sx.L (Sx.A "hs" :: List.map (fun h -> sx_int (int_of_nat h)) (run_trace r));
                          Sx.L (Sx.A "params" :: G_router.sx_params ps)])
           | _ -> failwith "probe") probes in
         [Sx.L [Sx.A "regs"; Sx.L [Sx.A "ok"]]; Sx.L (Sx.A "probes" :: res)]
@@ -83,10 +84,10 @@ let eval (input : Sx.t) (obs : Sx.t) : Sx.t list * bool * bool * string =
   let prog = List.map stmt_of (Sx.args (Sx.field "prog" input)) in
   let probes = Sx.args (Sx.field "probes" input) in
   let wrap = (match Sx.field_opt "wrap" input with Some w -> bool_of (List.hd (Sx.args w)) | None -> false) in
-  let m = predict wrap (exec prog) probes in
+  let m = predict (exec wrap prog) probes in
   (* the property: the implementation behaves like the FLAT expansion *)
-  let flat = predict wrap (flatten prog) probes in
+  let flat = predict (flatten wrap prog) probes in
   let spec = (flat = Sx.args obs) in
   let nested = List.exists (has_nested_group 0) prog in
-  let cls = (if nested then "nested-groups" else "flat-or-single") ^ (if exec prog = None then ",refused" else "") in
+  let cls = (if nested then "nested-groups" else "flat-or-single") ^ (if exec wrap prog = None then ",refused" else "") in
   (m, spec, nested || List.exists (function SCombo _ -> true | _ -> false) prog, cls)
